@@ -482,3 +482,64 @@ CONSTRAINT TraceConstraint
     except OSError:
         pass
     return out
+
+
+# ---------------------------------------------------------------------------
+# C12: perturbed evolutions through the evolve command
+
+def execute_perturbation(rec, start_sig, names_idx=0):
+    """V0 = start signature (fresh install), V1 = the models the valid evolution
+    leads to, evolution e1 = the PERTURBED mutation list; then
+    `evolve --execute --noinput`."""
+    from ..absmodel import ALT_NAMES, Names, norm_mutation, norm_sig
+    from ..djproj import render_models, render_mutation
+    from .mutseq import abstract_sim
+    base = ALT_NAMES[names_idx]
+    names = Names(models=base.models, fields=base.fields, app='shop')
+    project = Project(['shop'], tag='pert')
+    out = {}
+    try:
+        start = norm_sig(start_sig)
+        final = norm_sig(rec['final'])
+        project.deploy('shop', render_models(start, names, 'shop'), [])
+        r0 = project.run({'action': 'evolve_api'})
+        if r0['outcome'] != 'ok':
+            out['setup_error'] = r0.get('error') or r0
+            return out
+        # a couple of rows, so that "data untouched" is observable
+        r_rows = project.run({'action': 'insert_rows'})
+        pert = [norm_mutation(m) for m in rec['pert']]
+        befores = abstract_sim(pert, start)
+        srcs = []
+        for mu, before in zip(pert, befores):
+            mu = dict(mu)
+            if mu['k'] == 'Chg':
+                try:
+                    mu['init_type'] = before[mu['m']]['fields'][mu['f']]['ftype']
+                except (KeyError, TypeError):
+                    mu['init_type'] = 'Int'
+            srcs.append(render_mutation(mu, names))
+        project.deploy('shop', render_models(final, names, 'shop'),
+                       [{'label': 'e1', 'mutations_src': srcs}])
+        pre = project.run({'action': 'snapshot'})
+        res = project.run({'action': 'command', 'name': 'evolve',
+                           'options': {'execute': True, 'interactive': False,
+                                       'verbosity': 0}})
+        after = project.run({'action': 'evolve_api', 'execute': False})
+        out.update({
+            'outcome': res['outcome'],
+            'error_type': (res.get('error') or {}).get('type'),
+            'error_msg': ((res.get('error') or {}).get('msg') or '')[:400],
+            'writes': [e['sql'][:120] for e in res['events'] if e['ev'] in ('stmt', 'book')],
+            'signals': [e['ev'] for e in res['events']
+                        if e['ev'] in ('evolving', 'evolved', 'evolving_failed')],
+            'pre': pre['post']['default'], 'post': res['post']['default'],
+            'after_required': after.get('required'),
+            'after_diff_empty': after.get('diff_empty'),
+            'after_outcome': after.get('outcome'),
+            'after_error': ((after.get('error') or {}).get('msg') or '')[:300],
+            'sources': srcs,
+        })
+        return out
+    finally:
+        project.destroy()
